@@ -18,7 +18,7 @@ fn gen_atom(r: &mut Rng, depth: usize, out: &mut Vec<String>) {
         }
         out.push(")".to_string());
     } else {
-        let pool = ["true", "false", "0", "no", "NO", "False", "yes", "1", "x", ""];
+        let pool = ["true", "false", "0", "no", "NO", "False", "yes", "1", "x", "", " ", " false", "no ", " 0 ", "\tfalse", "fa lse", "00", "off", "FALSE"];
         out.push(r.pick(&pool).to_string());
     }
 }
@@ -96,8 +96,8 @@ fn value(ts: &[String]) -> Option<bool> {
 }
 
 fn render(t: &str) -> String {
-    if t.is_empty() {
-        "\"\"".to_string()
+    if t.is_empty() || t.contains(' ') || t.contains('\t') {
+        format!("\"{}\"", t.replace('\t', "\\t"))
     } else {
         t.to_string()
     }
